@@ -58,7 +58,7 @@ Qed.
 Lemma W_id w r f : W (skipN 0 w) r f = W w r f. Proof. reflexivity. Qed.
 
 Lemma visible_W w r f : visible (W w r f) = w.
-Proof. unfold visible, W. cbn [lim rem]. apply firstN_len_app. Qed.
+Proof. rewrite visible_eq. unfold W. cbn [lim rem]. apply firstN_len_app. Qed.
 Lemma avail_W w r f : avail (W w r f) = len w.
 Proof. unfold avail, W. cbn [lim rem]. rewrite len_app. lia. Qed.
 
